@@ -122,9 +122,17 @@ class Objective:
         self.reuse_buffer, self._buf = reuse_buffer, None
 
     def value(self, X):
+        v = self._raw(X)
+        if self.int_offset is not None:
+            v = np.int64(self.int_offset) + np.floor(4.0 * v).astype(np.int64)
+        return v
+
+    def _raw(self, X):
         X = np.asarray(X)
         if X.dtype == object:  # trees etc: use len / hash based integer value
             v = np.array([float(len(t)) for t in X], dtype=np.float64)
+            if self.kind in ("penalty", "penalty_min"):
+                v = np.where(v % 5 == 4, -1e20 if self.kind == "penalty" else 1e20, v)
             if self.kind == "nanstrip" and self.batches:      # defined everywhere on the initial population
                 v = np.where(v % 4 == 3, np.nan, v)
         else:
@@ -144,6 +152,10 @@ class Objective:
                 v = Xf @ w
             elif self.kind == "minx":
                 v = -Xf.min(axis=1)
+            elif self.kind in ("penalty", "penalty_min"):
+                # ordinary O(10) values with a "death penalty" of -/+1e20 for infeasible individuals (magnitudes 1e21 apart);
+                # penalty_min is meant to be minimised
+                v = np.where((Xf[:, 0] == 1) & (Xf[:, 1] == 1), -1e20 if self.kind == "penalty" else 1e20, Xf.sum(axis=1))
             elif self.kind == "nanstrip":
                 # an objective that is undefined (NaN) on a strip of the search space
                 binary = Xf.shape[1] >= 2 and set(np.unique(Xf)) <= {0.0, 1.0}
@@ -161,8 +173,6 @@ class Objective:
             self.batches.append((snap(X), v.copy()))
             return v
         v = self.value(X)
-        if self.int_offset is not None:
-            v = np.int64(self.int_offset) + np.floor(4.0 * v).astype(np.int64)
         self.batches.append((snap(np.asarray(X)), v.copy()))
         if self.reuse_buffer:
             # an admissible objective may write into a preallocated output buffer and return the SAME array object every call
